@@ -115,6 +115,19 @@ def run_C03(ctx):
             cases.append(c)
         for _ in range(ctx.n(2, 12)):
             cases.append(long_buf_case(ctx.rng, mode, ctx.thorough))
+    if not light():
+        # more than 2^16 bytes through one object of the byte-granular modes (anything that keeps a byte count in 16 bits),
+        # with a block size that does not divide 2^16
+        for mode in ["cfb8-enc", "cfb8-dec"]:
+            bs, w = ctx.rng.choice([(3, 2), (5, 5), (7, 2), (12, 4)])
+            c = Case("block", mode, bs, w, rb(ctx.rng, 16), rb(ctx.rng, bs), cls_long="65536+")
+            c.ops += [f"blocks {hx(rb(ctx.rng, 40000))}", f"blocks {hx(rb(ctx.rng, 25600))}", "ivstate", f"blocks {hx(rb(ctx.rng, 2 * bs + 1))}", "ivstate"]
+            cases.append(c)
+        for mode in ["cfbbuf-enc", "cfbbuf-dec"]:
+            bs, w = ctx.rng.choice([(3, 2), (5, 5), (7, 2), (12, 4)])
+            c = Case("buf", mode, bs, w, rb(ctx.rng, 16), rb(ctx.rng, bs), cls_long="65536+")
+            c.ops += [f"data {hx(rb(ctx.rng, 40001))}", f"data {hx(rb(ctx.rng, 25601))}", f"data {hx(rb(ctx.rng, 2 * bs + 1))}"]
+            cases.append(c)
     for _ in range(ctx.n(60, 800)):
         cases.append(stream_case(ctx.rng, "ofb", seeks=False))
     for _ in range(ctx.n(2, 12)):
